@@ -1043,3 +1043,18 @@ Proof.
   split; [exact Hw|]. split; [rewrite !work_works, Hw; reflexivity|].
   rewrite src_hostcalls_obs, hostcalls_obs, Hobs. reflexivity.
 Qed.
+
+Theorem exact_wrt_source : forall cfg m m' afs_s afs_m h cap fuel fi args W r mem g,
+  inject cfg m = Some m' -> annot_funcs cfg m = Some afs_s -> ameter_funcs cfg m = Some afs_m ->
+  trun h cap m afs_s fuel fi args = (W, Done r mem g) ->
+  exists f0 T, (forall f, (f0 <= f)%nat -> trun (mhost h) cap m' afs_m f (S fi) args = (T, Done r mem g)) /\
+               ticks T = work W.
+Proof.
+  intros cfg m m' afs_s afs_m h cap fuel fi args W r mem g Hi Hs Hm H.
+  assert (N1 : Done r mem g <> OutOfFuel) by discriminate. assert (N2 : Done r mem g <> Stuck) by discriminate.
+  destruct (metered_work_is_source_work _ _ _ _ _ _ _ _ _ _ _ _ Hi Hs Hm H N1 N2)
+    as [f0 [T [HT [_ [Hw _]]]]].
+  exists f0, T. split; [exact HT|].
+  destruct (metered_run_prepaid_exact _ _ _ _ _ _ _ _ _ _ _ Hi Hm (HT f0 (le_n _))) as [_ He].
+  rewrite (He r mem g eq_refl). exact Hw.
+Qed.
